@@ -145,3 +145,72 @@ UNITS.append(dict(
     desc='[C12][C05] num(dst) * den(src) == num(src) * den(dst) * 2^n (resp. with 2^n on the other side) computed with mpz_mul / mpz_mul_2exp, dst canonical (den > 0, gcd 1, both well formed), src unchanged unless it is the destination - over the whole enumerated space',
     assumptions=['bounded stand-in: mord_2exp (mpq/md_2exp.c) has no proof unit; the check itself uses mpz_gcd, mpz_mul, mpz_mul_2exp, mpz_cmp of the same library'],
     timeout=300, selftest=[]))
+
+# ------------------------------------------------------------------ mpq_mul_2exp / mpq_div_2exp (mord_2exp) PROVED limb-exact on the divided part, in place and not
+# dst = src * 2^n:  R = den(src) is divided by 2^s, s = min (n, number of trailing zero bits of R), L = num(src) is multiplied by 2^(n-s)  (mpq_div_2exp: roles swapped).
+# Stated from the definition with the ghost g_lz = index of the lowest non-zero limb of R:  z = min (n/64, g_lz) whole limbs are dropped, then shift = min (ctz (R[z]), n - 64z) bits
+# (R[z] == 0 only when z < g_lz, then n - 64z < 64 bits are all there is to remove).  Limb gk of the result is ((R >> 64z) >> shift)[gk]; its size is |R| - z or one less (dropped top limb
+# zero); mpz_mul_2exp / mpz_set is called on (L-part of dst, L-part of src) with exactly n - 64z - shift.  defect bc7e1ad (copy direction in place) is what this unit refutes on the old text.
+M2_PRE = '''long g_lz, g_lcalled; unsigned long g_lcnt; const void *g_lsrc, *g_ldst;
+#define V_QSEP(d,s) (!__CPROVER_same_object (V_PTR (V_NUM (d)), V_PTR (V_NUM (s))) && !__CPROVER_same_object (V_PTR (V_NUM (d)), V_PTR (V_DEN (s))) \\
+                  && !__CPROVER_same_object (V_PTR (V_DEN (d)), V_PTR (V_NUM (s))) && !__CPROVER_same_object (V_PTR (V_DEN (d)), V_PTR (V_DEN (s))) && !__CPROVER_same_object (d, s))
+void %(f)s (mpq_ptr dst, mpq_srcptr src, mp_bitcnt_t n)
+__CPROVER_requires (V_WFQ (dst) && V_WFQ (src) && V_GHOSTS_OK && (dst == src || V_QSEP (dst, src)) && n <= (1UL << 35) && V_ABSIZ (%(L)s (src)) + (long) (n / 64) + 1 <= V_ZMAX)
+__CPROVER_requires (V_SIZ (%(R)s (src)) != 0 && 0 <= g_lz && g_lz < V_ABSIZ (%(R)s (src)) && V_PTR (%(R)s (src))[g_lz] != 0 && gk < V_ABSIZ (%(R)s (src)))
+__CPROVER_assigns (*dst, __CPROVER_object_whole (V_PTR (V_NUM (dst))), __CPROVER_object_whole (V_PTR (V_DEN (dst))), gk, g_lcalled, g_lcnt, g_lsrc, g_ldst)
+__CPROVER_frees (V_PTR (V_NUM (dst)), V_PTR (V_DEN (dst)))
+__CPROVER_ensures (V_WFQ_AT (dst, gk));
+'''
+M2_H = '''void h_%(name)s (void) {
+%(D)s%(S)s%(alias)s
+  unsigned long n = nondet_ulong (); __CPROVER_assume (n <= (1UL << 35));
+  gk = nondet_long (); gj = nondet_long (); gh = nondet_long (); g_lz = nondet_long (); g_lcalled = 0;
+  __CPROVER_assume (V_GHOSTS_OK && V_WFQ (d) && V_WFQ (s));
+  mpz_srcptr R = %(R)s (s), L = %(L)s (s);
+  long rs = V_SIZ (R), rn = V_ABS (rs), ls = V_SIZ (L);
+  __CPROVER_assume (rs != 0 && 0 <= g_lz && g_lz < rn && V_PTR (R)[g_lz] != 0 && V_ABS (ls) + (long) (n / 64) + 1 <= V_ZMAX);
+  long z = (long) (n / 64) < g_lz ? (long) (n / 64) : g_lz;
+  unsigned long n1 = n - 64 * (unsigned long) z;
+  mp_limb_t P = V_PTR (R)[z];
+  __CPROVER_assume (z < g_lz ==> P == 0);                  /* instance of: every limb below g_lz is zero */
+  unsigned long tz = P ? (unsigned long) __builtin_ctzl (P) : 64;
+  unsigned long shift = ((P & 1) || n1 == 0) ? 0 : (P == 0 ? n1 : (tz < n1 ? tz : n1));
+  long len0 = rn - z;
+  __CPROVER_assume (0 <= gk && gk < len0);
+  mp_limb_t Rk = V_PTR (R)[gk + z], Rk1 = gk + z + 1 < rn ? V_PTR (R)[gk + z + 1] : 0;
+  mp_limb_t E = shift ? ((Rk >> shift) | (Rk1 << (64 - shift))) : Rk;
+  long gk0 = gk;
+  %(f)s (d, s, n);
+  mpz_srcptr RD = %(R)s (d), LD = %(L)s (d);
+  long ds = V_SIZ (RD), len = V_ABS (ds);
+  __CPROVER_assert (gk == gk0 && (ds < 0) == (rs < 0) && (len == len0 || len == len0 - 1) && len >= 1, "[C12] divided part: sign kept, size |R| - z or one less");
+  __CPROVER_assert (gk < len ? V_PTR (RD)[gk] == E : E == 0, "[C12][C05] divided part: limb gk is limb gk of R >> min (n, trailing zero bits of R); a dropped top limb is zero");
+  __CPROVER_assert (n1 - shift != 0 ? (g_lcalled == 1 && g_lcnt == n1 - shift && g_lsrc == (const void *) L && g_ldst == (const void *) LD)
+                                    : (LD != L ? (g_lcalled == 2 && g_lsrc == (const void *) L && g_ldst == (const void *) LD) : g_lcalled == 0),
+                    "[C12][C05] multiplied part: mpz_mul_2exp (resp. mpz_set, resp. nothing in place) on the other part of src with exactly the remaining count n - s");
+  if (s != d) __CPROVER_assert ((long) V_SIZ (R) == rs && (long) V_SIZ (L) == ls && V_PTR (R)[gk + z] == Rk, "[C05] source unchanged");
+}'''
+def _m2(op, alias):
+    f = '__gmpq_' + op
+    R, L = ('V_DEN', 'V_NUM') if op == 'mul_2exp' else ('V_NUM', 'V_DEN')
+    name = 'mpq_' + op + ('_ds' if alias else '')
+    I = '(p - rsrc_ptr)'
+    strip = dict(scalars=['n', 'plow'], havoc_targets=['p'], snap='unsigned long V_n0 = n;',
+                 havoc='{ long V_i = nondet_long (); __CPROVER_assume (0 <= V_i && V_i <= g_lz); p = rsrc_ptr + V_i; }', havoc_inv={'V_i': I},
+                 inv='(__CPROVER_same_object (p, rsrc_ptr) && 0 <= II && II <= g_lz && g_lz < len && (unsigned long) II <= V_n0 / 64 && n == V_n0 - 64 * (unsigned long) II && plow == rsrc_ptr[II] && rsrc_ptr[g_lz] != 0 && V_R_OK (rsrc_ptr, len))'.replace('II', I),
+                 dec='(g_lz - %s + 1)' % I, head='__CPROVER_assume (%s < g_lz ==> plow == 0);' % I)
+    cp = copy_loop(['gk', 'V_cn'], 'incr')
+    u = dict(name=name, props=P, source='mpq/md_2exp.c', contracts=['mpn.h', 'mpz.h', 'c11.h', 'mpq.h'], contract_text=M2_PRE % dict(f=f, R=R, L=L),
+             enforce=[f], replace=['__gmpz_realloc', '__gmpn_rshift', '__gmpz_mul_2exp', '__gmpz_set'],
+             functions={'mord_2exp': dict(nloops=2, loops={0: strip, 1: cp},
+                                          inserts=[(r'__gmpz_mul_2exp \(ldst, lsrc, n\);', r'{ g_lcalled = 1; g_lcnt = n; g_lsrc = lsrc; g_ldst = ldst; \g<0> }'),
+                                                   (r'__gmpz_set \(ldst, lsrc\);', r'{ g_lcalled = 2; g_lsrc = lsrc; g_ldst = ldst; \g<0> }')])},
+             assumptions=['g_lz (index of the lowest non-zero limb of the divided part) is defined by a for-all (every limb below it is zero) that is instantiated by a woven assume at the limb the stripping loop has just read, and once in the harness',
+                          'mpz_mul_2exp is used by an ASSUMED shape contract (result well formed; its value is not decided, DESIGN 11.3); mpz_set, mpn_rshift, _mpz_realloc by their proved contracts',
+                          'count n <= 2^35; partition: ' + ('dst == src (in place)' if alias else 'dst and src distinct objects with distinct blocks')],
+             harness=M2_H % dict(name=name, D=mpq_obj('D'), S=mpq_obj('S'), alias='  mpq_ptr d = &D; mpq_srcptr s = %s;' % ('d' if alias else '&S'), R=R, L=L, f=f), timeout=1500,
+             selftest=[('mord_2exp', r'n -= shift;', ';'), ('mord_2exp', r'len -= \(rdst_ptr\[len-1\] == 0\);', ';'), ('mord_2exp', r'len -= \(p - rsrc_ptr\);', 'len -= (p - rsrc_ptr) - 1;')] if op == 'mul_2exp' and alias else [])
+    return u
+for _op in ('mul_2exp', 'div_2exp'):
+    for _al in (0, 1):
+        UNITS.append(_m2(_op, _al))
